@@ -18,6 +18,7 @@ Regenerated from the source on every run: MaxHostInfosPerVpnIp, maxCachedPackets
 -/
 import Nebula.Gen.HsManager
 import Nebula.Model.ConnMgr
+import Nebula.Model.Routing
 
 namespace Nebula.HsManager
 open Nebula.Gen
@@ -246,6 +247,7 @@ def Wheel.advance (w : Wheel) (now : Nat) : Wheel × List TimerItem :=
 structure Cached where
   len : Nat
   port : Nat
+  srcOk : Bool := true      -- the packet's source address is one of ours (firewall: ErrInvalidLocalIP otherwise)
   deriving Repr, DecidableEq, Inhabited
 
 structure Pending where
@@ -272,14 +274,17 @@ structure Cfg where
   interval : Nat            -- ns
   fwLo : Nat := 1000        -- outbound firewall of the harness: udp dst port range allowed
   fwHi : Nat := 1999
+  routes : List (Addr × Int) := []   -- gateways (overlay address, weight) of the unsafe route 172.16.0.0/16
   deriving Repr, DecidableEq, Inhabited
 
 def Cfg.defaultVer (c : Cfg) : Nat := if c.hasV1 then 1 else 2
 def Cfg.hasVer (c : Cfg) (v : Nat) : Bool := (v == 1 && c.hasV1) || (v == 2 && c.hasV2)
-def is6 (a : Addr) : Bool := a ≥ 100
+/-- address ids: < 100 IPv4 overlay, 100..199 IPv6 overlay, >= 200 IPv4 behind the unsafe route -/
+def is6 (a : Addr) : Bool := a ≥ 100 && a < 200
+def isRouted (a : Addr) : Bool := a ≥ 200
 def Cfg.inMyNet (c : Cfg) (a : Addr) : Bool :=
   (c.myAddrs.take (if c.hasV2 then c.myAddrs.length else 1)).any (fun m => is6 m == is6 a)
-def Cfg.allowed (c : Cfg) (p : Cached) : Bool := c.fwLo ≤ p.port && p.port ≤ c.fwHi
+def Cfg.allowed (c : Cfg) (p : Cached) : Bool := c.fwLo ≤ p.port && p.port ≤ c.fwHi && p.srcOk
 
 /-- what the handshake packets this node creates contain (consumed by the symbolic network) -/
 inductive PktInfo
@@ -565,17 +570,63 @@ def Node.continueHandshake (n : Node) (via : UNode) (idx : Nat) (res : S2Res) : 
         ({ n with main := n.main.addHostInfo (initiatorHostInfo hh via c), p := { p with lh := p.lh.refresh rid } },
          { tx := flushed, flushed := [(hh.id, hh.store.filter n.cfg.allowed)] })
 
+/-- firewall + send of one inside packet through tunnel `h` -/
+def Cfg.sendVia (c : Cfg) (h : HostInfo) (q : Cached) : Out :=
+  if c.allowed q then
+    match h.remote with
+    | some u => { tx := [.msg q.len u] }
+    | none => {}
+  else {}
+
+/-- routing.BalancePacket over the route's gateways (source port of the harness packets: 40000) -/
+def chosenGateway (gs : List (Addr × Int)) (q : Cached) : Option Addr :=
+  match Nebula.Routing.calculateBuckets (gs.map (fun g => Nebula.Routing.newGateway g.1 g.2)) with
+  | none => none
+  | some bs =>
+    match Nebula.Routing.balancePacket { localAddr := 0, remoteAddr := 0, localPort := 40000, remotePort := q.port,
+                                         protocol := 17, fragment := false } bs with
+    | .chosen i _ => (gs[i]?).map (·.1)
+    | .panic => none
+
+/-- the fallback loop of getOrHandshakeConsiderRouting: GetOrHandshake(gateway, nil) in order until one has a tunnel -/
+def Node.firstReady (n : Node) : List Addr → Node × Option HostInfo
+  | [] => (n, none)
+  | g :: gs =>
+    match n.getOrHandshake g id with
+    | (n', some h) => (n', some h)
+    | (n', none) => Node.firstReady n' gs
+
+/-- getOrHandshakeConsiderRouting for a destination behind the unsafe route, then firewall + send / queue -/
+def Node.sendRouted (n : Node) (q : Cached) : Node × Out :=
+  match n.cfg.routes with
+  | [] => (n, {})
+  | [g] =>
+    match n.getOrHandshake g.1 (fun hh => hh.cache q) with
+    | (n', some h) => (n', n.cfg.sendVia h q)
+    | (n', none) => (n', {})
+  | gs =>
+    match chosenGateway gs q with
+    | none => (n, {})
+    | some chosen =>
+      match n.getOrHandshake chosen id with
+      | (n1, some h) => (n1, n.cfg.sendVia h q)
+      | (n1, none) =>
+        -- the chosen gateway has no tunnel: any other gateway that has one takes the packet (and only then
+        -- the packet is NOT queued); otherwise it is queued on the chosen gateway's pending handshake
+        match n1.firstReady ((gs.map (·.1)).filter (· != chosen)) with
+        | (n2, some h) => (n2, n.cfg.sendVia h q)
+        | (n2, none) =>
+          match alookup chosen n2.p.vpnIps with
+          | some hh => ({ n2 with p := n2.p.setPending (hh.cache q) }, {})
+          | none => (n2, {})
+
 /-- consumeInsidePacket for one UDP packet to overlay address `a` -/
 def Node.sendInside (n : Node) (a : Addr) (q : Cached) : Node × Out :=
   if n.cfg.myAddrs.contains a then (n, {}) else
+  if isRouted a then n.sendRouted q else
   if !n.cfg.inMyNet a then (n, {}) else
   match n.getOrHandshake a (fun hh => hh.cache q) with
-  | (n', some h) =>
-    if n.cfg.allowed q then
-      match h.remote with
-      | some u => (n', { tx := [.msg q.len u] })
-      | none => (n', {})
-    else (n', {})
+  | (n', some h) => (n', n.cfg.sendVia h q)
   | (n', none) => (n', {})
 
 /-- connection manager: shouldSwapPrimary + swapPrimary for the tunnel with local index `li` -/
